@@ -121,3 +121,31 @@ func HarnessC05Splice() {
 	vAssert(err == nil, "splice-renders-without-error")
 	vAssert(vEqStr(out, want), "text-between-constructs-is-emitted-byte-for-byte")
 }
+
+
+// HarnessC05Inner: pure text glued directly behind a directive keyword that has a longer spelling (@else / @elseif,
+// @break / @breakIf, @continue / @continueIf) is text unless it really spells the longer keyword.
+func HarnessC05Inner() {
+	hole := symBytes("h", vParam("K"))
+	vAssume(refPure(hole))
+	if len(hole) > 0 {
+		last := hole[len(hole)-1]
+		vAssume(last != '\\' && last != '{')
+	}
+	var src, want string
+	switch vChoice("keyword", 3) {
+	case 0:
+		vAssume(!(len(hole) >= 2 && hole[0] == 'i' && hole[1] == 'f')) // that would be @elseif
+		src, want = "a@if(false)y@else"+hole+"@end", "a"+refRender(hole)
+	case 1:
+		vAssume(!(len(hole) >= 2 && hole[0] == 'I' && hole[1] == 'f')) // @breakIf
+		src, want = "@each(v in [1, 2])<{{ v }}@break"+hole+">@end", "<1"
+	default:
+		vAssume(!(len(hole) >= 2 && hole[0] == 'I' && hole[1] == 'f')) // @continueIf
+		src, want = "@each(v in [1, 2])<{{ v }}@continue"+hole+">@end", "<1<2"
+	}
+	out, err := EvaluateString(src, nil)
+	vCover("rendered")
+	vAssert(err == nil, "text-behind-a-directive-keyword-renders-without-error")
+	vAssert(vEqStr(out, want), "text-between-constructs-is-emitted-byte-for-byte")
+}
